@@ -85,6 +85,7 @@ type checkOpts struct {
 	quiet                   bool
 	noEvidence              bool
 	only                    string
+	mutantTag               string
 }
 
 type CheckOutcome struct {
@@ -407,11 +408,19 @@ func runCheck(o checkOpts) *CheckOutcome {
 	}
 	t2 := time.Now()
 	outDir := filepath.Join(o.verif, "out", o.prop)
+	if o.mutantTag != "" {
+		outDir = filepath.Join(o.verif, "out", "_selftest", o.prop+"-"+o.mutantTag)
+	}
 	os.RemoveAll(outDir)
 	results := dischargeAll(all, outDir, timeout, o.seed, o.tier == "thorough", o.workers)
 	out.SolveS = time.Since(t2).Seconds()
 	out.Results = results
 	replayDir := filepath.Join(o.verif, "replay", o.prop)
+	if o.mutantTag != "" {
+		replayDir = filepath.Join(o.verif, "out", "_selftest", "replay-"+o.prop+"-"+o.mutantTag)
+	} else {
+		os.RemoveAll(replayDir)
+	}
 	for _, r := range results {
 		r.Variant = variant[r.O]
 		r.Known = known[r.O]
@@ -479,14 +488,16 @@ func runCheck(o checkOpts) *CheckOutcome {
 			fmt.Printf("  NOT DISCHARGED %s: %s (%s) — %s\n", r.O.Name, r.Res.Status, r.O.Pos, r.O.Src)
 		}
 	}
-	for _, k := range out.Known {
-		fmt.Println(k)
-	}
-	for _, e := range out.EngineErrs {
-		fmt.Printf("ENGINE-ERROR: %s\n", e)
-	}
-	for _, v := range out.Violations {
-		fmt.Println(v)
+	if !o.quiet {
+		for _, k := range out.Known {
+			fmt.Println(k)
+		}
+		for _, e := range out.EngineErrs {
+			fmt.Printf("ENGINE-ERROR: %s\n", e)
+		}
+		for _, v := range out.Violations {
+			fmt.Println(v)
+		}
 	}
 	switch {
 	case len(out.Violations) > 0:
